@@ -248,3 +248,29 @@ pub fn wire_ser(a: &[String]) -> Value {
            "expected": format!("response header {}: {}", a[3], v),
            "observed": {"status": o.status, "headers": o.headers, "backend_calls": o.calls, "body": o.body.chars().take(200).collect::<String>()}, "replay_args": args})
 }
+
+/// host-style: requests `GET /bkt/key` whose Host is an IP or socket address (IPv4/IPv6, with and without port) against a
+/// service configured with a base domain: each must be read as path-style and reach get_object with bucket "bkt" (C12/C01)
+pub fn host_style() -> Value {
+    let hosts = ["127.0.0.1", "127.0.0.1:8014", "[::1]:8014", "::1", "[2001:db8::17]:9000", "192.168.1.10:80", "2001:db8::17"];
+    let mut first_bad = None;
+    let mut all = Vec::new();
+    for h in hosts {
+        let rec = Recorder::default();
+        *rec.mode.lock().unwrap() = "ok_default".to_owned();
+        let inputs = rec.inputs.clone(); let log = rec.log.clone();
+        let mut b = s3s::service::S3ServiceBuilder::new(rec);
+        b.set_host(s3s::host::SingleDomain::new("example.com").unwrap());
+        let svc = b.build();
+        let req = http::Request::builder().method("GET").uri("/bkt/key").header("host", h).body(s3s::Body::empty()).unwrap();
+        let rt = tokio::runtime::Builder::new_current_thread().enable_all().build().unwrap();
+        let status = rt.block_on(async { svc.call(req).await.map(|r| r.status().as_u16()).unwrap_or(0) });
+        let calls = log.lock().unwrap().clone();
+        let input = inputs.lock().unwrap().first().cloned().unwrap_or_default();
+        let ok = calls.len() == 1 && calls[0].starts_with("get_object@") && input.contains("bucket: \"bkt\"") && input.contains("key: \"key\"");
+        all.push(json!({"host": h, "status": status, "backend_calls": calls, "input": input, "ok": ok}));
+        if !ok && first_bad.is_none() { first_bad = Some(h); }
+    }
+    json!({"violates": first_bad.is_some(), "input": {"request": "GET /bkt/key", "host": first_bad, "service": "base domain example.com"},
+           "expected": "path-style: get_object with bucket bkt and key key", "observed": all, "replay_args": ["host-style"]})
+}
